@@ -100,6 +100,8 @@ pub struct Plan {
     pub raw_kv: Vec<(Vec<u8>, Vec<u8>)>,
     pub xor: Option<Vec<u8>>,
     pub extra_files: Vec<(String, Vec<u8>)>,
+    /// extra files created BEFORE the blk files (directory enumeration order differs)
+    pub pre_files: Vec<(String, Vec<u8>)>,
     pub extra_dirs: Vec<String>,
     pub ldb_small_buffer: bool,
     pub ldb_reopens: u8,
@@ -148,6 +150,9 @@ impl Plan {
     /// Writes everything except the index; fills in the (file, position) of the index records.
     pub fn write_files(&mut self, dir: &Path) -> Result<(), String> {
         std::fs::create_dir_all(dir).map_err(|e| e.to_string())?;
+        for (n, c) in &self.pre_files {
+            std::fs::write(dir.join(n), c).map_err(|e| e.to_string())?;
+        }
         for f in &self.files {
             let path = dir.join(&f.name);
             let file = std::fs::File::create(&path).map_err(|e| format!("create {}: {}", path.display(), e))?;
